@@ -176,6 +176,10 @@ def registry(rng):
     add("set_center/int", center.set_center, spot, (9, 11), crop="maintain_data")
     add("set_center/frac", center.set_center, spot, (9.4, 11.3), order=3)
     add("set_center/list-origin", center.set_center, spot, [9.4, -8.0], order=1)
+    add("set_center/object-origin", center.set_center, spot, np.array([9.4, None], dtype=object), crop="maintain_data", order=1)
+    add("set_center/int/valid_region", center.set_center, spot, (9, 11), crop="valid_region")
+    add("set_center/order0/valid_region", center.set_center, spot, (9.4, 11.3), crop="valid_region", order=0)
+    add("center_image/round", center.center_image, spot, "com", crop="valid_region", round_output=True)
     add("get_image_quadrants", symmetry.get_image_quadrants, sq, symmetry_axis=(0, 1), use_quadrants=[True, False, True, True])
     add("get_image_quadrants/fourier", symmetry.get_image_quadrants, sq, symmetry_axis=0, symmetrize_method="fourier")
     Q = tuple(rng.random((11, 11)) for _ in range(4))
@@ -206,10 +210,15 @@ def registry(rng):
     rgrid = np.arange(40.0)
     add("Polynomial", polynomial.Polynomial, rgrid, 5.0, 25.0, [1.0, -0.2, 0.03], r_0=3.0, s=2.0, reduced=True)
     add("Polynomial/array-c", polynomial.Polynomial, rgrid, 5, 25, np.array([1.0, -0.2, 0.03]))
+    add("Polynomial/array-c/scaled", polynomial.Polynomial, rgrid, 5.0, 25.0, np.array([1.0, -0.2, 0.03]), r_0=3.0, s=2.0)
+    add("Polynomial/array-c/reduced", polynomial.Polynomial, rgrid, 5.0, 25.0, np.array([1.0, -0.2, 0.03, 0.0]), reduced=True)
+    cshared = np.array([0.5, 0.25, -0.01])
+    add("PiecewisePolynomial/shared-c", polynomial.PiecewisePolynomial, rgrid, [(2, 10, cshared, 1.0, 2.0), (10, 30, cshared, 5.0, 3.0)])
     add("PiecewisePolynomial", polynomial.PiecewisePolynomial, rgrid, [(2, 10, [1, 0.5]), (10, 30, [0, 0, 0.1], 5.0, 2.0)])
     R2 = np.hypot(*np.mgrid[:15, :15])
     C2 = np.divide(np.mgrid[:15, :15][0], R2, out=np.zeros_like(R2), where=R2 > 0)
     add("SPolynomial", polynomial.SPolynomial, R2, C2, 2.0, 12.0, [[1.0, 0.2], [0.1, 0.05]])
+    add("SPolynomial/array-c", polynomial.SPolynomial, R2, C2, 2.0, 12.0, np.array([[1.0, 0.2], [0.1, 0.05]]), r_0=1.0, s=2.0)
     add("ApproxGaussian", polynomial.ApproxGaussian, 1e-3)
     add("rcos", polynomial.rcos, shape=(9, 11), origin=(4, 5))
     add("bspline", polynomial.bspline, __import__("scipy.interpolate", fromlist=["x"]).UnivariateSpline(np.arange(10.), rng.random(10), s=0))
